@@ -1369,3 +1369,203 @@ class calculate_trimmed_segments:
 
     def requires(s, a):
         return a.width >= 0
+
+
+# ---- calculate_text_segments, 'space' wrapping: structure, order and fit of the lines (which characters are hidden is
+# stated up to consecutive marker-only lines; that every break is at a space where words fit is the bounded stand-in's)
+
+SP = 32
+
+
+def is_sp(text, k):
+    return elem_eq(text.get(k), chr_of(SP))
+
+
+def _space_setup(st, self_obj, vals):
+    """Width-model facts about two individuals: chr(10) has no width (see _newline_has_no_width); chr(32) takes one
+    column (wcwidth(' ') == 1; static check below)."""
+    from pyvc.text import char_width
+    st.assume(char_width(chr_of(NL)) == 0)
+    st.assume(char_width(chr_of(SP)) == 1)
+
+
+def _xc_space_width():
+    from urwid.str_util import get_char_width
+    return ("space-takes-one-column", get_char_width(" ") == 1, f"get_char_width(' ') == {get_char_width(' ')}")
+
+
+def sp_first_off(row):
+    return val(seg3_offs(seg_at(row, 0)))
+
+
+def sp_marker_only(row):
+    return both(n_segs(row) == 1, neg(seg_is_run(seg_at(row, 0))))
+
+
+def sp_next(row):
+    """Where the text goes on after the line: after its end marker's hidden character; else at the end of its run.
+    (For a marker-only line: at least after the marker's offset -- see sp_gap.)"""
+    return row_end(row)
+
+
+def hidden_char(text, h):
+    """Position h holds a newline or a space, or is the end of the text (the slot after the last character)."""
+    n = tlen(text)
+    return both(0 <= h, h <= n, implies(h < n, either(is_nl(text, h), is_sp(text, h))))
+
+
+def space_line_ok(row, text, width):
+    """[(0, o)]  |  [(sc, a, b), (0, b)] with a hidden newline / space (or the end of the text) at b  |  [(sc, a, b)];
+    runs are non-empty runs of the text, no wider than the width."""
+    n = tlen(text)
+    e0 = seg_at(row, 0)
+    ns = n_segs(row)
+    o = val(seg3_offs(e0))
+    marker_only = both(ns == 1, neg(seg_is_run(e0)), seg_sel(e0, lambda t: len(t) == 2), seg_cols(e0) == 0, seg_has_offs(e0), 0 <= o, o <= n)
+    e1 = seg_at(row, 1)
+    with_marker = both(ns == 2, run_in_width(e0, text, width), seg_cols(e0) > 0, neg(seg_is_run(e1)), seg_cols(e1) == 0, seg_has_offs(e1),
+                       val(seg3_offs(e1)) == seg3_end(e0), hidden_char(text, seg3_end(e0)))
+    run_only = both(ns == 1, run_in_width(e0, text, width))
+    return either(marker_only, with_marker, run_only)
+
+
+def sp_gap(prev_row, row, text, first):
+    """How line `row` continues after `prev_row` (first: there is no previous line; the text starts at 0).
+    "The text goes on at s":  after a line that is not marker-only: s is exactly where it stopped (row_end);
+                             after a marker-only line [(0, o)]: s > o, only zero-width characters lie between o and the
+                             ONE hidden newline / space at s - 1.
+    A line with a run starts where the text goes on.  A marker-only line [(0, o)] either starts there itself (o: the
+    line start, zero-width characters and a hidden space follow), or marks the newline / end of the text that ends a
+    paragraph of zero-width characters (then only that it lies behind the previous line, at no more columns)."""
+    n = tlen(text)
+    f = sp_first_off(row)
+    g0 = ite(first, 0, sp_next(prev_row)) if V.is_sym(first) else (0 if first else sp_next(prev_row))
+    po = sp_first_off(prev_row)
+    prev_marker = both(neg(first), sp_marker_only(prev_row)) if V.is_sym(first) else (False if first else sp_marker_only(prev_row))
+    goes_on_at_f = ite(prev_marker, both(f > po, W(text, f - 1) == W(text, po), hidden_char(text, f - 1), f - 1 < n), f == g0)
+    has_run = seg_is_run(seg_at(row, 0))
+    ends_paragraph = both(either(f == n, both(f < n, is_nl(text, ite(f < n, f, 0)))), ite(prev_marker, f > po, both(f >= g0, W(text, f) == W(text, g0))))
+    return ite(has_run, goes_on_at_f, either(goes_on_at_f, ends_paragraph))
+
+
+def _sp_unwrappable(row, text, width):
+    """The last line ends in a marker for a hidden space and its run does not fill the width: the code may take it
+    back (`del segments[-1]`) -- once, the replacement is not unwrappable or idx has moved on."""
+    ns = n_segs(row)
+    e0 = seg_at(row, 0)
+    h = ite(ns == 2, val(seg3_offs(seg_at(row, 1))), val(seg3_offs(e0)))
+    psc = ite(ns == 2, seg_cols(e0), 0)
+    has_marker = either(ns == 2, both(ns == 1, neg(seg_is_run(e0))))
+    return both(has_marker, psc < width, h < tlen(text), is_sp(text, ite(h < tlen(text), h, 0)))
+
+
+def _sp_facts(v, inner=False):
+    segs, t, width, idx = v.segments, v.text, v.width, v.idx
+    n = tlen(t)
+    m = Q.seq_len(segs)
+    yield "idx-within-the-text-or-just-past-it", both(0 <= idx, idx <= n + 1)
+    yield "no-line-yet-only-at-the-start", either(m >= 1, idx == 0)
+    if isinstance(segs.seq, tuple) and not segs.seq:
+        return
+    k = V.arbitrary("line")
+    last = _row(segs, m - 1)
+    yield "idx-is-behind-the-last-line", implies(m >= 1, both(
+        implies(neg(sp_marker_only(last)), idx == sp_next(last)),
+        implies(sp_marker_only(last), both(idx > sp_first_off(last), W(t, idx - 1) == W(t, sp_first_off(last)), hidden_char(t, idx - 1), idx - 1 <= n,
+                                           either(idx - 1 == sp_first_off(last), both(idx - 1 < n, is_sp(t, ite(idx - 1 < n, idx - 1, 0))))))))
+    fact = lambda q: both(space_line_ok(_row(segs, q), t, width), sp_gap(_row(segs, q - 1), _row(segs, q), t, q == 0))  # noqa: E731
+    yield "every-line-so-far-is-well-formed-fits-and-continues-the-one-before", implies(both(0 <= k, k < m), fact(k))
+    # (the same for the last two lines by name: the code looks at the last line, and un-wrapping exposes the one before)
+    yield "so-is-the-last-line/shape", implies(m >= 1, space_line_ok(_row(segs, m - 1), t, width))
+    yield "so-is-the-last-line/continues", implies(m >= 1, sp_gap(_row(segs, m - 2), _row(segs, m - 1), t, m == 1))
+    yield "so-is-the-line-before-it", implies(m >= 2, fact(m - 2))
+    yield "a-run-of-no-columns-only-as-the-last-line-before-a-character-that-cannot-fit", both(
+        implies(both(0 <= k, k < m - 1), neg(_zero_run(_row(segs, k)))),
+        implies(both(m >= 1, _zero_run(last)), both(idx < n, W(t, idx + 1) - W(t, idx) > width)))
+
+
+def _sp_outer_inv(v):
+    t = v.text
+    segs = v.segments
+    if not (isinstance(segs.seq, tuple) and not segs.seq):
+        m = Q.seq_len(segs)
+        bases = [sp_first_off(_row(segs, m - 1)), sp_next(_row(segs, m - 2)), sp_first_off(_row(segs, m - 2))]
+        here = [getattr(v, name) for name in ("nl_pos", "pos", "prev", "next_char", "idx") if name in v and V.is_num(getattr(v, name))]
+        for x in here:
+            for b_ in bases + here:
+                if b_ is not x:
+                    w_mono(t, b_, x)
+                    w_mono(t, b_ + 1, x)
+    if "h_off" in v and "pos" in v and V.is_num(v.pos) and V.is_num(val(v.h_off)):
+        # un-wrapping: the line taken back and its hidden space fit the width, so the new break is not before them
+        w_mono(t, v.pos + 1, val(v.h_off) + 1)
+        w_mono(t, val(v.h_off) + 1, v.pos)
+    yield from _sp_facts(v)
+
+
+def _sp_flag(segs, t, width):
+    m = Q.seq_len(segs)
+    if isinstance(segs.seq, tuple) and not segs.seq:
+        return 1
+    return ite(both(m >= 1, _sp_unwrappable(_row(segs, m - 1), t, width)), 1, 0)
+
+
+def _sp_measure(v):
+    """Termination: idx moves on in every iteration -- except that un-wrapping the previous line may leave idx where it
+    was, and then the new last line cannot be un-wrapped again."""
+    segs, t = v.segments, v.text
+    m = Q.seq_len(segs)
+    return 2 * (tlen(t) + 1 - v.idx) + _sp_flag(segs, t, v.width)
+
+
+def _sp_inner_inv(v):
+    t = v.text
+    idx, pos, prev = v.idx, v.pos, v.prev
+    yield "scan-stays-between-the-line-start-and-the-break", both(idx <= prev, prev <= pos)
+    e = v.at_entry
+    if e is not None and "segments" in e:
+        # nothing is laid out while scanning (the scan appends a line only when it stops): idx and the lines are those of
+        # the loop entry, as far as the termination measure looks at them
+        yield "nothing-laid-out-while-scanning", both(idx == e.idx, Q.seq_len(v.segments) == Q.seq_len(e.segments), _sp_flag(v.segments, t, v.width) == _sp_flag(e.segments, t, v.width))
+    yield "this-line-does-not-fit-and-breaks-at-pos", both(
+        idx < pos, pos < v.nl_pos, v.nl_pos <= tlen(t), v.screen_columns == W(t, pos) - W(t, idx), v.screen_columns <= v.width,
+        v.screen_columns + (W(t, pos + 1) - W(t, pos)) > v.width, neg(is_sp(t, pos)), W(t, pos + 1) - W(t, pos) != 2)
+    yield from _sp_facts(v, inner=True)
+
+
+def _sp_ens(old, s, a, result, callee=False):
+    t, width = a.text, a.width
+    n = tlen(t)
+    m = Q.seq_len(result)
+    last = _row(result, m - 1)
+    yield "at-least-one-line", m >= 1
+    yield "the-last-line-ends-the-text", both(n_segs(last) >= 1, neg(seg_is_run(seg_at(last, n_segs(last) - 1))), val(seg3_offs(seg_at(last, n_segs(last) - 1))) == n)
+    ok = lambda k: both(space_line_ok(_row(result, k), t, width), neg(_zero_run(_row(result, k))), sp_gap(_row(result, k - 1), _row(result, k), t, k == 0))  # noqa: E731
+    if callee:
+        yield "every-line-is-well-formed-fits-the-width-and-continues-the-one-before", forall(0, m, ok, check_empty=False)
+    else:
+        k = V.arbitrary("line")
+        yield "every-line-is-well-formed-fits-the-width-and-continues-the-one-before", implies(both(0 <= k, k < m), ok(k))
+
+
+@contract(TL + "StandardTextLayout.calculate_text_segments", property="C03", replayable=False, alias="space-wrap")
+class calculate_text_segments_space:
+    self_shape = STL2
+    params = dict(text=TEXT_QF, width=Int, wrap=Const("space"))
+    setup = staticmethod(_space_setup)
+    result = LAYOUT2
+    raises = (_tl.CanNotDisplayText,)
+    modifies = ()
+    qf_branching = True
+    ensures = staticmethod(_sp_ens)
+    loops = {0: Loop(invariant=_sp_outer_inv, decreases=_sp_measure, shapes={"segments": LAYOUT2}),
+             1: Loop(invariant=_sp_inner_inv, decreases=lambda v: v.prev - v.idx, shapes={"segments": LAYOUT2, "line": LINE})}
+    static_checks = [_xc_newline_width, _xc_space_width]
+
+    def requires(s, a):
+        return a.width >= 1
+
+    def on_raise(old, s, a, exc):
+        idx = cur().ghost.get("exit_locals", {}).get("idx")
+        t = a.text
+        yield "cannot-display-only-a-character-wider-than-the-width", False if idx is None else both(0 <= idx, idx < tlen(t), W(t, idx + 1) - W(t, idx) > a.width)
